@@ -16,6 +16,8 @@ CONSTANTS
   Crashes = FALSE
   StartBy = 0
   HealOdds = 3
+  ListLag = FALSE
+  FixSkew = FALSE
 VIEW View
 INVARIANTS InvNotStaleEmit
 CHECK_DEADLOCK FALSE
